@@ -70,6 +70,113 @@ func isCallResult(t *an.Terms, v ssa.Value, fn *ssa.Function, idx int) bool {
 	return isCall && an.StaticCallee(&call.Call) == fn
 }
 
+// storeTarget: the local variable of outer that a store inside the closure inner writes to —
+// the captured variable itself, or the variable whose address was put into a captured pointer
+// (`defer helper(&res)` after inlining). nil when it cannot be resolved.
+func storeTarget(outer, inner *ssa.Function, st *ssa.Store) *ssa.Alloc {
+	if fv, ok := st.Addr.(*ssa.FreeVar); ok {
+		return boundAlloc(outer, inner, fv)
+	}
+	// *p = v with p loaded from a captured pointer variable (possibly through a local copy)
+	var origin func(v ssa.Value, depth int) *ssa.FreeVar
+	origin = func(v ssa.Value, depth int) *ssa.FreeVar {
+		if depth > 4 {
+			return nil
+		}
+		u, ok := v.(*ssa.UnOp)
+		if !ok {
+			return nil
+		}
+		switch x := u.X.(type) {
+		case *ssa.FreeVar:
+			return x
+		case *ssa.Alloc:
+			// local copy: its single store
+			var src ssa.Value
+			n := 0
+			for _, r := range *x.Referrers() {
+				if s, isSt := r.(*ssa.Store); isSt && s.Addr == ssa.Value(x) {
+					src = s.Val
+					n++
+				}
+			}
+			if n == 1 {
+				return origin(src, depth+1)
+			}
+		}
+		return nil
+	}
+	fv := origin(st.Addr, 0)
+	if fv == nil {
+		return nil
+	}
+	holder := boundAlloc(outer, inner, fv)
+	if holder == nil {
+		return nil
+	}
+	// the holder was initialised once with the address of a local (possibly via a converted copy)
+	var target *ssa.Alloc
+	n := 0
+	for _, r := range *holder.Referrers() {
+		if s, isSt := r.(*ssa.Store); isSt && s.Addr == ssa.Value(holder) {
+			n++
+			v := s.Val
+			for {
+				switch x := v.(type) {
+				case *ssa.ChangeType:
+					v = x.X
+					continue
+				case *ssa.Convert:
+					v = x.X
+					continue
+				}
+				break
+			}
+			target, _ = v.(*ssa.Alloc)
+		}
+	}
+	if n != 1 {
+		return nil
+	}
+	return target
+}
+
+// isResultVar: al is a named result of fn — what fn returns after a recovered panic is a load of it.
+func isResultVar(fn *ssa.Function, al *ssa.Alloc) bool {
+	if fn.Recover == nil || len(fn.Recover.Instrs) == 0 {
+		return false
+	}
+	r, ok := fn.Recover.Instrs[len(fn.Recover.Instrs)-1].(*ssa.Return)
+	if !ok {
+		return false
+	}
+	for _, res := range r.Results {
+		if u, isU := res.(*ssa.UnOp); isU && u.X == ssa.Value(al) {
+			return true
+		}
+	}
+	return false
+}
+
+// samePhi looks through phis all of whose operands are (recursively) one and the same value:
+// several ways through a loop body that carry the same value back.
+func samePhi(v ssa.Value) ssa.Value {
+	for depth := 0; depth < 4; depth++ {
+		ph, ok := v.(*ssa.Phi)
+		if !ok || len(ph.Edges) == 0 {
+			return v
+		}
+		first := samePhi(ph.Edges[0])
+		for _, e := range ph.Edges[1:] {
+			if samePhi(e) != first {
+				return v
+			}
+		}
+		v = first
+	}
+	return v
+}
+
 // boundAlloc returns the local variable (Alloc) of `outer` that the closure `inner`
 // captures as free variable fv, looking at the MakeClosure sites of inner in outer.
 func boundAlloc(outer, inner *ssa.Function, fv *ssa.FreeVar) *ssa.Alloc {
